@@ -74,12 +74,12 @@ def build(u):
     u.spec("paystate_shared.rs", shared=True)
     u.spec("lifecycle.rs")
     messages_mod(u, m)
-    u.raw("pub mod store {\nuse super::*;\nuse crate::messages::TrampolineInfo;\n")
+    u.raw("pub mod store {\nuse super::*;\nuse crate::anyhow::Result;\nuse crate::messages::TrampolineInfo;\n")
     u.item(st, "PaymentState", "enum")
     u.item(st, "AttemptId", "struct")
     u.trait(st, "Datastore", "store")
     u.raw("}\npub use store::Datastore;\n")
-    u.raw("pub mod payment_provider {\nuse super::*;\n")
+    u.raw("pub mod payment_provider {\nuse super::*;\nuse crate::anyhow::Result;\n")
     u.item(pp, "PaymentRequest", "struct")
     u.trait(pp, "PaymentProvider", "payment_provider")
     u.raw("}\npub use payment_provider::{PaymentProvider, PaymentRequest};\n")
@@ -90,7 +90,7 @@ def build(u):
     u.item(em, "NotifyPaymentFailedRequest", "struct")
     u.trait(em, "NotificationService", "email")
     u.raw("}\npub use email::{NotificationService, NotifyPaymentFailedRequest};\n")
-    u.raw("pub mod htlc_manager {\nuse super::*;\nuse crate::messages::{HtlcAcceptedResponse, TrampolineInfo, TrampolineRoutingPolicy};\n")
+    u.raw("pub mod htlc_manager {\nuse super::*;\nuse crate::anyhow::Result;\nuse crate::messages::{HtlcAcceptedResponse, TrampolineInfo, TrampolineRoutingPolicy};\n")
     u.raw("broadcast use crate::lemma_rely_store, crate::lemma_unchanged_store;\n")
     u.item(h, "HtlcManagerParams", "struct")
     u.item(h, "PaymentState", "struct", extra_attr="pub")
